@@ -48,6 +48,10 @@ def plan(tier, seed):
         nstates += s3 + s4
         ntrans += t3 + t4
     cases += extra
+    bi, si, ti = gram.grammar_cases(2 if tier != "thorough" else 3, terms=("a", "b", "c"), with_sharp=False)
+    cases += [dict(c, mode="free", ints=True) for c in bi]  # integer terminals {0,1,2}
+    nstates += si
+    ntrans += ti
     for c in base:
         small = len(c["rules"]) <= p["num_depth"] or c["name"].startswith("sharp")
         if small:
@@ -109,11 +113,24 @@ assert repr(have) == {repr(want)!r}, have   # coefficient = number of derivation
 
 
 def run_free(case):
+    r = _run_free(case, None)
+    var_of = gram.shared_vars(case_rules(case))
+    if var_of is not None:
+        r2 = _run_free(case, var_of)  # duplicate rules equal by value (same weight)
+        for k in ("evals",):
+            r[k] += r2[k]
+        r["fails"] += r2["fails"]
+        r["counters"]["executions"] += r2["counters"]["executions"]
+    return r
+
+
+def _run_free(case, var_of):
     p = cfgp()
     rules = case_rules(case)
     V = case_terms(case)
-    table = enum_derivs(rules, "S", V, Poly.D)
-    g = gram.build(rules, Poly, gram.poly_weights(len(rules)), V=V)
+    table = enum_derivs(rules, "S", V, Poly.D, var_of=var_of)
+    W0 = gram.poly_weights(len(rules)) if var_of is None else [Poly.var(v) for v in var_of]
+    g = gram.build(rules, Poly, W0, V=V)
     fails = []
     evals = 0
     nonzero = 0
@@ -121,12 +138,14 @@ def run_free(case):
     E = _call(earley.Earley, g)
     C = _call(lambda: IncrementalCKY(g.cnf))
     parsers += [("earley", E), ("cky", C)]
-    inp0 = {"rules": case["rules"]}
+    inp0 = {"rules": case["rules"]} if var_of is None else {"rules": case["rules"], "duplicates_share_weight": True}
+    if case.get("ints"):
+        inp0["tokens"] = "a,b,c -> 0,1,2"
     for name, f in parsers:
         if isinstance(f, str):
             fails.append(_fail(f"{name}:construct", dict(inp0, parser=name), f, "parser object"))
     maxlen = p["maxlen"] if len(V) <= 2 else min(p["maxlen"], 3)
-    for x in strings_upto(sorted(V), maxlen):
+    for x in strings_upto(sorted(V, key=repr), maxlen):
         want = table.get(x, Poly.zero)
         if want != Poly.zero:
             nonzero += 1
